@@ -235,3 +235,80 @@ Lemma installed_readers_documented_proof : forall limit cap,
   chain_of c19_server_read_limiters limit cap = documented_chain limit /\
   chain_of c19_client_read_limiters limit cap = documented_chain limit.
 Proof. intros. split; reflexivity. Qed.
+
+(* ---------- fourth wave: the client's limit whatever the codec; a receive error comes first ---------- *)
+Lemma client_limit_any_codec_proof : forall codec limit,
+  0 < limit -> client_readers codec limit = documented_chain limit /\
+               stream_sharp_at limit (chain_accepts (client_readers codec limit)).
+Proof.
+  intros codec limit L. unfold client_readers. apply Z.ltb_lt in L. rewrite L. split; [reflexivity|].
+  intros sizes. cbn. rewrite Bool.andb_true_r. apply stream_sharp_proof.
+Qed.
+
+Lemma receive_error_comes_first_proof : forall limit def sizes,
+  (client_stream_handler limit def sizes = OExhausted <-> exists s, In s sizes /\ limit < s) /\
+  (client_stream_handler limit def sizes = match def with DefData => OResponse | DefError => ODefinedError end
+     <-> forall s, In s sizes -> s <= limit).
+Proof.
+  intros limit def sizes. unfold client_stream_handler.
+  pose proof (first_rejected_none limit sizes) as N.
+  pose proof (stream_sharp_proof limit sizes) as S.
+  destruct (first_rejected limit sizes) as [i|] eqn:F.
+  - assert (A : stream_accepts limit sizes <> true) by (intros A; apply N in A; discriminate).
+    pose proof (first_rejected_sound limit sizes i F) as ((x & Hx & Lx) & _).
+    apply nth_error_In in Hx.
+    split; split; intros H.
+    + exists x; auto.
+    + reflexivity.
+    + destruct def; discriminate.
+    + exfalso. apply A, S, H.
+  - assert (A : stream_accepts limit sizes = true) by (apply N; reflexivity).
+    split; split; intros H.
+    + destruct def; discriminate.
+    + destruct H as (x & Hx & Lx). pose proof (proj1 S A x Hx). lia.
+    + apply S, A.
+    + reflexivity.
+Qed.
+
+(* ---------- fourth wave: where the padding comes from ---------- *)
+Lemma unbounded_source_is_expand_proof : forall left base T n,
+  pad_loop_src padding_source left base T n = pad_loop left true base T n.
+Proof.
+  unfold padding_source. induction left as [|left IH]; intros base T n; cbn.
+  - reflexivity.
+  - destruct (T - msg_size base n =? 0); [reflexivity|].
+    destruct (0 <? T - msg_size base n); [apply IH|].
+    destruct (slice_to n (Z.max 0 (n + (T - msg_size base n)))); [apply IH|reflexivity].
+Qed.
+
+Lemma pad_loop_src_bound c base T : 0 <= c -> forall left n0 n,
+  0 <= n0 -> pad_loop_src (Some c) left base T n0 = POk n ->
+  0 <= n <= n0 + Z.of_nat left * c /\ msg_size base n = T.
+Proof.
+  intros C. induction left as [|left IH]; intros n0 n N0; cbn [pad_loop_src].
+  - destruct (Z.eqb_spec (T - msg_size base n0) 0) as [E|E]; [|discriminate].
+    intros H; injection H as <-. cbn. lia.
+  - destruct (Z.eqb_spec (T - msg_size base n0) 0) as [E|E].
+    + intros H; injection H as <-. nia.
+    + destruct (Z.ltb_spec 0 (T - msg_size base n0)) as [P|P].
+      * intros H. apply IH in H; [|lia]. rewrite Nat2Z.inj_succ. nia.
+      * destruct (slice_to n0 (Z.max 0 (n0 + (T - msg_size base n0)))) as [k|] eqn:S; [|discriminate].
+        apply slice_to_some in S. destruct S as (-> & S).
+        intros H. apply IH in H; [|lia]. rewrite Nat2Z.inj_succ. nia.
+Qed.
+
+Lemma bounded_source_rejects_reachable_proof : forall c base n0,
+  0 <= c -> 0 <= n0 -> n0 + 3 * c + 11 <= go_int_max ->
+  let T := msg_size base (n0 + 3 * c + 11) in
+  reachable base T /\ forall n, pad_loop_src (Some c) max_adjust base T n0 <> POk n.
+Proof.
+  intros c base n0 C N0 B T. split.
+  - exists (n0 + 3 * c + 11). split; [lia|reflexivity].
+  - intros n H. apply pad_loop_src_bound in H; [|assumption|assumption].
+    destruct H as (Hn & E). unfold T in E. apply msg_size_h in E.
+    change (Z.of_nat max_adjust) with 3 in Hn.
+    assert (Hh : 0 <= h n <= 10).
+    { destruct (h_cases n) as [[? ->]|[[? ->]|[[? ->]|[[? ->]|[[? ->]|[[? ->]|[? ?]]]]]]]; lia. }
+    pose proof (h_nonneg (n0 + 3 * c + 11)).
+    unfold msg_size, h in *. lia.
+Qed.
